@@ -124,6 +124,12 @@ type beginEvent struct {
 	Eos     []int  `json:"eos"`
 }
 
+// gateDeadline bounds how long a forced completion order is waited for.  An
+// order becomes infeasible when the code under test deviates from the
+// specification (e.g. the parser stops after an error); the gate then opens
+// and the execution is judged by the oracle alone.
+const gateDeadline = 8 * time.Second
+
 // gate records the scanner's hook events and optionally forces the order in
 // which workers complete frames.
 type gate struct {
@@ -141,7 +147,7 @@ type gate struct {
 
 func newGate(order []int) *gate {
 	g := &gate{frames: map[any]int{}, workers: map[any]int{}, epochs: map[any]int{}, order: order,
-		deadline: time.Now().Add(20 * time.Second)}
+		deadline: time.Now().Add(gateDeadline)}
 	g.cond = sync.NewCond(&g.mu)
 	return g
 }
@@ -507,6 +513,8 @@ type checker struct {
 	tk        *tokens
 	traces    []*traceRec
 	maxTraces int
+	// number of forced-order reads on which the gate timed out
+	gateTimeouts int
 }
 
 type traceRec struct {
@@ -597,10 +605,6 @@ func (ck *checker) scriptOracle(w scriptWitness, cs *sCase) {
 // judge applies the property's oracle to one read-back.
 func (ck *checker) judge(part string, written []wr, res readResult, w any, wit func(string) any) bool {
 	c := ck.c
-	if res.stuck {
-		c.Inconclusive("%s: the scheduled read did not finish within the deadline (%+v)", part, w)
-		return false
-	}
 	if res.err != nil {
 		c.Violate("roundtrip:"+part+":read-error", fmt.Sprintf("reading back a stream written without error fails: %v", res.err), wit(res.err.Error()))
 		return true
@@ -743,66 +747,69 @@ func (ck *checker) orderOracle(w orderWitness) {
 	}
 	inOrder := sort.IntsAreSorted(w.Order)
 	c.Eval(fmt.Sprintf("order|%d|%d|%v|%v", w.Threads, w.Frames, w.Eos, w.Order), !inOrder)
-	res := readBack(data, readerCfg{Threads: w.Threads, Pull: len(w.Order)%2 == 0, Validate: true}, w.Order)
+	order := w.Order
+	if ck.gateTimeouts >= 3 {
+		// The real scanner evidently does not follow the specification's
+		// schedules (see the drift lines); stop waiting for them.
+		order = nil
+		c.Add("completion_orders_skipped_after_timeouts", 1)
+	}
+	res := readBack(data, readerCfg{Threads: w.Threads, Pull: len(w.Order)%2 == 0, Validate: true}, order)
+	if res.stuck {
+		ck.gateTimeouts++
+	}
 	bad := ck.judge("order", written, res, w, func(detail string) any { w.Detail = detail; return w })
-	if !res.stuck {
-		var got []int
-		for _, e := range res.events {
-			if e.E == "done" {
-				got = append(got, e.F)
-			}
+	if order == nil {
+		ck.addTrace(w.Threads, data, res.events, "free-running read", bad)
+		return
+	}
+	var got []int
+	for _, e := range res.events {
+		if e.E == "done" {
+			got = append(got, e.F)
 		}
-		if fmt.Sprint(got) != fmt.Sprint(w.Order) {
-			c.Inconclusive("the gate did not realise completion order %v (observed %v)", w.Order, got)
-		} else {
-			c.Add("completion_orders_forced", 1)
-		}
+	}
+	if res.stuck || fmt.Sprint(got) != fmt.Sprint(w.Order) {
+		c.Drift("completion order %v predicted by ZngScanner.tla was not realised by the real scanner (observed %v, gate timed out: %v)", w.Order, got, res.stuck)
+		c.Add("completion_orders_not_realised", 1)
+	} else {
+		c.Add("completion_orders_forced", 1)
 	}
 	ck.addTrace(w.Threads, data, res.events, fmt.Sprintf("forced order %v", w.Order), bad)
 }
 
 func (ck *checker) tlcB() ([]sOrder, error) {
 	c := ck.c
-	cfgs := []string{"ZngScanner.n5t3.cfg", "ZngScanner.n4t2.cfg", "ZngScanner.err.cfg"}
+	cfg := "ZngScanner.quick.cfg"
 	if !c.Quick() {
-		cfgs = append(cfgs, "ZngScanner.n6t3.cfg", "ZngScanner.n6t4.cfg")
+		cfg = "ZngScanner.thorough.cfg"
 	}
-	var mu sync.Mutex
+	res := c.MustHold(core.TLCRun{Module: "ZngScanner", Cfg: cfg, Workers: 4, Deadlock: true, Timeout: 15 * time.Minute})
+	if res == nil {
+		return nil, nil
+	}
 	var orders []sOrder
-	var wg sync.WaitGroup
-	var firstErr error
-	for _, cfg := range cfgs {
-		wg.Add(1)
-		go func(cfg string) {
-			defer wg.Done()
-			res := c.MustHold(core.TLCRun{Module: "ZngScanner", Cfg: cfg, Workers: 4, Deadlock: true, Timeout: 15 * time.Minute})
-			if res == nil {
-				return
-			}
-			seen := map[string]bool{}
-			for _, line := range res.Prints {
-				m := reOrder.FindStringSubmatch(strings.TrimSpace(line))
-				if m == nil || seen[m[1]] {
-					continue
-				}
-				seen[m[1]] = true
-				js, err := unquoteTLA(m[1])
-				var o sOrder
-				if err == nil {
-					err = json.Unmarshal([]byte(js), &o)
-				}
-				mu.Lock()
-				if err != nil {
-					firstErr = err
-				} else {
-					orders = append(orders, o)
-				}
-				mu.Unlock()
-			}
-		}(cfg)
+	seen := map[string]bool{}
+	for _, line := range res.Prints {
+		m := reOrder.FindStringSubmatch(strings.TrimSpace(line))
+		if m == nil || seen[m[1]] {
+			continue
+		}
+		seen[m[1]] = true
+		js, err := unquoteTLA(m[1])
+		if err != nil {
+			return nil, err
+		}
+		var o sOrder
+		if err := json.Unmarshal([]byte(js), &o); err != nil {
+			return nil, err
+		}
+		orders = append(orders, o)
 	}
-	wg.Wait()
-	return orders, firstErr
+	if len(orders) == 0 {
+		return nil, fmt.Errorf("ZngScanner.tla produced no completion orders")
+	}
+	return orders, nil
 }
 
 func (ck *checker) partB(orders []sOrder) {
@@ -818,10 +825,6 @@ func (ck *checker) partB(orders []sOrder) {
 		return fmt.Sprint(a.Order) < fmt.Sprint(b.Order)
 	})
 	c.Set("completion_orders_from_tlc", len(orders))
-	if len(orders) == 0 {
-		c.Inconclusive("ZngScanner.tla produced no completion orders")
-		return
-	}
 	for i, o := range orders {
 		sort.Ints(o.Eos)
 		ck.orderOracle(orderWitness{Kind: "order", Threads: o.Threads, Frames: o.Frames, Eos: o.Eos, Order: o.Order, Seed: c.Seed*1000 + int64(i)})
@@ -1085,7 +1088,10 @@ func (ck *checker) partD() {
 	if len(all) == 0 {
 		return
 	}
-	jvms := 4
+	jvms := 2
+	if !c.Quick() {
+		jvms = 6
+	}
 	per := (len(all) + jvms - 1) / jvms
 	var wg sync.WaitGroup
 	var mu sync.Mutex
